@@ -119,13 +119,15 @@ func randL4(r *vgen.Rand) rtgen.L4 {
 	return rtgen.UDP(uint16(r.Range(1, 65535)), uint16(r.Range(1, 65535)), pl)
 }
 
+// randOpts: no extension header (2 of 5), a header with padding only, or 1-3 options of
+// 0..12 bytes.
 func randOpts(r *vgen.Rand) []rtgen.Opt {
-	if !r.Chance(1, 5) {
+	if r.Chance(2, 5) {
 		return nil
 	}
 	opts := []rtgen.Opt{}
-	for i := r.Intn(3); i > 0; i-- {
-		opts = append(opts, rtgen.Opt{Type: uint8(r.Range(3, 250)), Data: r.Bytes(r.Intn(8))})
+	for i := r.Intn(4); i > 0; i-- {
+		opts = append(opts, rtgen.Opt{Type: uint8(r.Range(3, 250)), Data: r.Bytes(r.Intn(13))})
 	}
 	return opts
 }
@@ -381,6 +383,16 @@ func emit(stream string, rc *rcfg, s *scen, raw []byte) *rtgen2.Obs {
 	if o.InX.Slack > 0 {
 		run.Tally("header-slack:" + dir + ":" + cls)
 	}
+	if s.d != nil {
+		nExt := 0
+		if s.d.HBH != nil {
+			nExt++
+		}
+		if s.d.E2E != nil {
+			nExt++
+		}
+		run.Tally(fmt.Sprintf("extension-headers=%d:%s:%s", nExt, dir, cls))
+	}
 	bfd := s.d != nil && s.d.L4.Proto == rtgen2.L4BFD
 	var l4 rtgen.L4
 	if s.d != nil {
@@ -538,6 +550,7 @@ func chain(r *vgen.Rand, a, b *rcfg, variant int) {
 		First: rtgen.Hop{ConsEgress: e.ID, ExpTime: uint8(r.Range(40, 255))},
 		SrcIA: a.cfg.IA, DstIA: b.cfg.IA, Src: randHost(r), Dst: rtgen.HostSVC(addr.SvcCS),
 		TC: uint8(r.U64()), FlowID: uint32(r.U64()) & 0xfffff, L4: rtgen.UDP(uint16(r.Range(1025, 65000)), 30252, r.Bytes(r.Intn(16))),
+		HBH: randOpts(r), E2E: randOpts(r),
 	}
 	if r.Chance(1, 4) {
 		d.First.ConsIngress = uint16(r.Range(1, 500))
@@ -712,6 +725,7 @@ func main() {
 		"neighbour, sibling-owned, 0, unknown), SrcIA (local, neighbour, other), DstIA (local, neighbour behind the egress, " +
 		"other / zero), MAC valid / invalid, ConsDir set (cleared on a sample); (2) valid-by-construction outgoing and " +
 		"incoming packets on random configurations (IPv4/IPv6/service hosts, UDP/TCP/SCMP/other payloads, HBH/E2E headers) " +
+		"(0, 1 or 2 extension headers with 0-3 options of 0-12 bytes; each header on 3 of 5 packets) " +
 		"and a mutation stream (ConsDir, SrcIA, DstIA, MAC byte, foreign key, ConsEgress/ConsIngress/SegID/timestamp/ExpTime " +
 		"with and without re-MAC, ingress link, destination host, truncated L4, PayloadLen, reserved bits, alert flags, peer " +
 		"flag, pre-filled second hop, BFD upper layer) and valid packets whose HdrLen announces 1-3 lines more than the " +
